@@ -40,11 +40,14 @@ func oracle(c caseT, b *built, pool reverseproxy.UpstreamPool, ri reqInfo, resul
 	eff := effective(c)
 	leaf := c.chain[len(c.chain)-1]
 	ws := leaf.weights
+	if len(ws) >= 2 && len(ws) > n {
+		ws = ws[:n] // the weights of upstreams that are not in the pool take no part
+	}
 	wsum := 0
 	for _, w := range ws {
 		wsum += w
 	}
-	weighted := eff.kind == "wrr" && len(ws) >= 2
+	weighted := eff.kind == "wrr" && len(leaf.weights) >= 2
 	eligible := func(i int) bool {
 		if !av[i] {
 			return false
@@ -69,17 +72,9 @@ func oracle(c caseT, b *built, pool reverseproxy.UpstreamPool, ri reqInfo, resul
 	for t, r := range results {
 		switch {
 		case r.idx == -2:
-			if weighted && n > len(ws) {
-				add("wrr-panic-pool-longer-than-weights", fmt.Sprintf("weighted_round_robin panicked (index out of range): pool of %d, %d weights", n, len(ws)))
-			} else {
-				add("unexpected-panic:"+eff.kind, "Select panicked: index out of range")
-			}
+			add("unexpected-panic:"+eff.kind, "Select panicked: index out of range")
 		case r.idx == -3:
-			if weighted && wsum == 0 {
-				add("wrr-panic-all-weights-zero", "weighted_round_robin panicked (integer divide by zero): all weights are 0")
-			} else {
-				add("unexpected-panic:"+eff.kind, "Select panicked: integer divide by zero")
-			}
+			add("unexpected-panic:"+eff.kind, "Select panicked: integer divide by zero")
 		case r.idx == -4:
 			add("unexpected-panic:"+eff.kind, "Select panicked or returned an upstream that is not in the pool")
 		case r.idx == -5:
@@ -354,8 +349,10 @@ func cookieRoundTrip(c caseT, sel int, add func(string, string)) {
 	}
 }
 
-// wrrWindow runs totalWeight consecutive selections on a fresh policy and compares how
-// often each upstream was chosen with its weight.
+// wrrWindow runs one cycle (total weight of the upstreams in the pool) of consecutive selections
+// on a fresh policy and compares how often each upstream was chosen with its weight: an upstream
+// that can be used (available, positive weight) gets at least its weight, and exactly its weight
+// when every upstream with a positive weight can be used.
 func wrrWindow(c caseT, av []bool, ws []int, wsum int, add func(string, string)) {
 	b2, err := buildPolicy(c.chain, c.v)
 	if err != nil {
@@ -373,37 +370,24 @@ func wrrWindow(c caseT, av []bool, ws []int, wsum int, add func(string, string))
 		}
 		counts[r.idx]++
 	}
-	allUp := true
-	for i := range av {
-		if !av[i] {
-			allUp = false
+	allUsable := true
+	for i, w := range ws {
+		if w > 0 && !av[i] {
+			allUsable = false
 		}
 	}
-	if allUp && n == len(ws) {
-		for i := range ws {
-			if counts[i] != ws[i] {
-				add("wrr-counts-not-weights", fmt.Sprintf("all upstreams available, weights %v, but over %d consecutive selections they were chosen %v times", ws, wsum, counts))
-				return
-			}
+	for i := range counts {
+		w := 0
+		if i < len(ws) && av[i] {
+			w = ws[i]
 		}
-		return
-	}
-	// some upstream is unavailable or pool and weight list differ in length: at least the
-	// order of the weights must be respected among the upstreams that can be chosen
-	for i := 0; i < n && i < len(ws); i++ {
-		for j := 0; j < n && j < len(ws); j++ {
-			if av[i] && av[j] && ws[i] > ws[j] && ws[j] > 0 && counts[i] < counts[j] {
-				what := fmt.Sprintf("weights %v, availability %v: over %d consecutive selections upstream %d (weight %d) was chosen %d times but upstream %d (weight %d) %d times", ws, av, wsum, i, ws[i], counts[i], j, ws[j], counts[j])
-				switch {
-				case !allUp:
-					add("wrr-weights-misattributed-some-unavailable", what)
-				case n < len(ws):
-					add("wrr-weights-misattributed-pool-shorter-than-weights", what)
-				default:
-					add("wrr-weights-inverted", what)
-				}
-				return
-			}
+		switch {
+		case counts[i] < w:
+			add("wrr-share-below-weight", fmt.Sprintf("weights %v, availability %v: over a cycle of %d consecutive selections upstream %d (weight %d, available) was chosen only %d times (counts %v)", ws, av, wsum, i, w, counts[i], counts))
+			return
+		case allUsable && counts[i] != w:
+			add("wrr-counts-not-weights", fmt.Sprintf("every upstream with a positive weight is available, weights %v, but over a cycle of %d consecutive selections they were chosen %v times", ws, wsum, counts))
+			return
 		}
 	}
 }
